@@ -2,9 +2,317 @@ package main
 
 import (
 	"context"
+	"encoding/json"
 	"errors"
+	"fmt"
+	"sync"
+
+	"seata.apache.org/seata-go/pkg/rm/tcc"
+	"seata.apache.org/seata-go/pkg/tm"
 )
 
-func runTCCStep(ctx context.Context, s *step, st *runState) stepResult {
-	return stepResult{Op: s.Op, Err: errors.New("tcc step not implemented").Error()}
+// ---- scripted, recording TCC actions (the user's try/confirm/cancel code of the monitor) ----
+
+type tccScript struct {
+	Try      string   `json:"try"`      // ok | err | false | panic
+	Commit   []string `json:"commit"`   // outcome of the 1st, 2nd, ... commit call (last one repeats): ok | err | false | panic
+	Rollback []string `json:"rollback"` // same for rollback
+}
+
+type tccCall struct {
+	Seq       int64           `json:"seq"`
+	Phase     string          `json:"phase"` // try | commit | rollback
+	Action    string          `json:"action"`
+	Xid       string          `json:"xid"`
+	BranchID  int64           `json:"branch_id"`
+	CtxAction string          `json:"ctx_action_name"`
+	Context   json.RawMessage `json:"action_context"`
+	Params    string          `json:"params,omitempty"`
+	Outcome   string          `json:"outcome"`
+}
+
+type tccAction struct {
+	name string
+}
+
+var (
+	tccMu      sync.Mutex
+	tccProxies = map[string]*tcc.TCCServiceProxy{}
+	tccScripts = map[string]*tccScript{}
+	tccCalls   []tccCall
+	tccCounts  = map[string]int{}
+)
+
+func (a *tccAction) GetActionName() string { return a.name }
+
+func tccOutcome(list []string, n int) string {
+	if len(list) == 0 {
+		return "ok"
+	}
+	if n >= len(list) {
+		n = len(list) - 1
+	}
+	return list[n]
+}
+
+func tccResult(outcome string) (bool, error) {
+	switch outcome {
+	case "err":
+		return false, errors.New("scripted failure of the user method")
+	case "false":
+		return false, nil
+	case "panic":
+		panic("scripted panic of the user method")
+	}
+	return true, nil
+}
+
+func (a *tccAction) record(phase string, ctx context.Context, bac *tm.BusinessActionContext, params interface{}, outcome string) {
+	c := tccCall{Phase: phase, Action: a.name, Outcome: outcome}
+	if bac == nil {
+		bac = tm.GetBusinessActionContext(ctx)
+	}
+	if bac != nil {
+		c.Xid, c.BranchID, c.CtxAction = bac.Xid, bac.BranchId, bac.ActionName
+		c.Context, _ = json.Marshal(bac.ActionContext)
+	}
+	if phase == "try" {
+		c.Xid = tm.GetXID(ctx)
+		c.Params = fmt.Sprintf("%T", params)
+	}
+	// the mark is synchronous: its sequence number orders the call against the coordinator's log
+	c.Seq = mark("", "tcc-"+phase, map[string]interface{}{"action": a.name, "xid": c.Xid, "branch": c.BranchID})
+	tccMu.Lock()
+	tccCalls = append(tccCalls, c)
+	tccMu.Unlock()
+}
+
+func (a *tccAction) Prepare(ctx context.Context, params interface{}) (bool, error) {
+	tccMu.Lock()
+	sc := tccScripts[a.name]
+	tccMu.Unlock()
+	out := "ok"
+	if sc != nil && sc.Try != "" {
+		out = sc.Try
+	}
+	a.record("try", ctx, nil, params, out)
+	return tccResult(out)
+}
+
+func (a *tccAction) phaseTwo(phase string, ctx context.Context, bac *tm.BusinessActionContext) (bool, error) {
+	tccMu.Lock()
+	sc := tccScripts[a.name]
+	key := fmt.Sprintf("%s|%s|%d|%s", a.name, bacXid(bac), bacBranch(bac), phase)
+	n := tccCounts[key]
+	tccCounts[key] = n + 1
+	tccMu.Unlock()
+	var list []string
+	if sc != nil {
+		if phase == "commit" {
+			list = sc.Commit
+		} else {
+			list = sc.Rollback
+		}
+	}
+	out := tccOutcome(list, n)
+	a.record(phase, ctx, bac, nil, out)
+	return tccResult(out)
+}
+
+func bacXid(b *tm.BusinessActionContext) string {
+	if b == nil {
+		return ""
+	}
+	return b.Xid
+}
+
+func bacBranch(b *tm.BusinessActionContext) int64 {
+	if b == nil {
+		return 0
+	}
+	return b.BranchId
+}
+
+func (a *tccAction) Commit(ctx context.Context, bac *tm.BusinessActionContext) (bool, error) {
+	return a.phaseTwo("commit", ctx, bac)
+}
+
+func (a *tccAction) Rollback(ctx context.Context, bac *tm.BusinessActionContext) (bool, error) {
+	return a.phaseTwo("rollback", ctx, bac)
+}
+
+// ---- parameter struct families ----
+
+type tccNested struct {
+	X int      `json:"x"`
+	Y []string `json:"y"`
+}
+
+type tccTagged struct {
+	A     int64   `tccParam:"a"`
+	B     string  `tccParam:"b"`
+	C     float64 // untagged: not part of the context
+	d     string  `tccParam:"d"` // unexported: not part of the context
+	Skip  string  `tccParam:"-"`
+	Empty string  `tccParam:""`
+	F     bool    `tccParam:"f"`
+}
+
+type tccWithNested struct {
+	N  tccNested         `tccParam:"n"`
+	M  map[string]int    `tccParam:"m"`
+	L  []int64           `tccParam:"l"`
+	PI *int64            `tccParam:"pi"`
+	PN *tccNested        `tccParam:"pn"`
+	I  interface{}       `tccParam:"i"`
+	U  map[string]string // untagged
+}
+
+type tccWithCtxPtr struct {
+	Ctx *tm.BusinessActionContext
+	A   int64 `tccParam:"a"`
+}
+
+type tccWithCtxVal struct {
+	Ctx tm.BusinessActionContext
+	B   string `tccParam:"b"`
+}
+
+type tccParamSpec struct {
+	Kind string          `json:"kind"` // nil tagged tagged_ptr nested ctx_ptr ctx_ptr_nil ctx_val bac bac_ptr bac_ptr_nil int string map
+	A    int64           `json:"a"`
+	B    string          `json:"b"`
+	C    float64         `json:"c"`
+	F    bool            `json:"f"`
+	N    tccNested       `json:"n"`
+	M    map[string]int  `json:"m"`
+	L    []int64         `json:"l"`
+	PI   *int64          `json:"pi"`
+	PN   *tccNested      `json:"pn"`
+	I    json.RawMessage `json:"i"`
+	Pre  map[string]interface{} `json:"pre"` // pre-filled ActionContext of a caller-supplied BusinessActionContext
+}
+
+func (p *tccParamSpec) build() interface{} {
+	pre := func() *tm.BusinessActionContext {
+		b := &tm.BusinessActionContext{}
+		if p.Pre != nil {
+			b.ActionContext = p.Pre
+		}
+		return b
+	}
+	switch p.Kind {
+	case "nil":
+		return nil
+	case "tagged":
+		return tccTagged{A: p.A, B: p.B, C: p.C, d: "hidden", Skip: "skipped", Empty: "empty", F: p.F}
+	case "tagged_ptr":
+		return &tccTagged{A: p.A, B: p.B, C: p.C, d: "hidden", Skip: "skipped", Empty: "empty", F: p.F}
+	case "nested":
+		var i interface{}
+		if len(p.I) > 0 {
+			json.Unmarshal(p.I, &i)
+		}
+		return &tccWithNested{N: p.N, M: p.M, L: p.L, PI: p.PI, PN: p.PN, I: i, U: map[string]string{"u": "untagged"}}
+	case "ctx_ptr":
+		return &tccWithCtxPtr{Ctx: pre(), A: p.A}
+	case "ctx_ptr_nil":
+		return &tccWithCtxPtr{A: p.A}
+	case "ctx_val":
+		return tccWithCtxVal{Ctx: *pre(), B: p.B}
+	case "bac":
+		return *pre()
+	case "bac_ptr":
+		return pre()
+	case "bac_ptr_nil":
+		var b *tm.BusinessActionContext
+		return b
+	case "int":
+		return int(p.A)
+	case "string":
+		return p.B
+	case "map":
+		return map[string]interface{}{"a": p.A, "b": p.B}
+	}
+	return nil
+}
+
+func tccProxy(name string) (*tcc.TCCServiceProxy, error) {
+	tccMu.Lock()
+	defer tccMu.Unlock()
+	if p := tccProxies[name]; p != nil {
+		return p, nil
+	}
+	p, err := tcc.NewTCCServiceProxy(&tccAction{name: name})
+	if err != nil {
+		return nil, err
+	}
+	tccProxies[name] = p
+	return p, nil
+}
+
+// runTCCStep: {op: tcc, action: name, params: tccParamSpec}: Prepare through the service proxy.
+func runTCCStep(ctx context.Context, s *step, st *runState) (r stepResult) {
+	r.Op = s.Op
+	defer func() {
+		if p := recover(); p != nil {
+			r.Panic = fmt.Sprint(p)
+		}
+	}()
+	var spec tccParamSpec
+	if len(s.Params) > 0 {
+		if err := json.Unmarshal(s.Params, &spec); err != nil {
+			r.Err = "bad params: " + err.Error()
+			return r
+		}
+	}
+	p, err := tccProxy(s.Action)
+	if err != nil {
+		r.Err = "proxy: " + err.Error()
+		return r
+	}
+	res, err := p.Prepare(ctx, spec.build())
+	if err != nil {
+		r.Err = err.Error()
+	}
+	if b, ok := res.(bool); ok && b {
+		r.Affected = 1
+	}
+	return r
+}
+
+func init() {
+	// tcc_register: create (and register with the coordinator) the proxies of the named actions
+	register("tcc_register", func(arg json.RawMessage) (interface{}, error) {
+		var names []string
+		if err := json.Unmarshal(arg, &names); err != nil {
+			return nil, err
+		}
+		for _, n := range names {
+			if _, err := tccProxy(n); err != nil {
+				return nil, err
+			}
+		}
+		return nil, nil
+	})
+	register("tcc_script", func(arg json.RawMessage) (interface{}, error) {
+		var m map[string]*tccScript
+		if err := json.Unmarshal(arg, &m); err != nil {
+			return nil, err
+		}
+		tccMu.Lock()
+		for k, v := range m {
+			tccScripts[k] = v
+		}
+		tccMu.Unlock()
+		return nil, nil
+	})
+	// tcc_calls: the recorded user-method calls since the previous tcc_calls
+	register("tcc_calls", func(arg json.RawMessage) (interface{}, error) {
+		tccMu.Lock()
+		out := tccCalls
+		tccCalls = nil
+		tccMu.Unlock()
+		return out, nil
+	})
 }
